@@ -46,7 +46,7 @@ def subterms(t, acc):
 
 def term_str(t):
     if t[0] == "a":
-        return "abcdfgRS"[t[1]] if t[1] < 8 else "x%d" % t[1]
+        return "abcdfgRS"[t[1]] if t[1] < 8 else "k%d" % (t[1] - 10)
     return "(%s %s)" % (term_str(t[1]), term_str(t[2]))
 
 
@@ -363,7 +363,7 @@ def judge_core(ops, outs):
             both = a in known and b in known
             equal = Naive(consts, combs, known).eq(a, b) if both else (a == b)
             if out[0] == "res":
-                bad = judge_explanation(a, b, out[1], consts, combs)
+                bad = judge_explanation(a, b, out[1], consts, combs) or explanation_closed(a, b, out[1])
                 if bad:
                     return ("explain-" + bad[0], i, "%s: %s (result %s)" % (op, bad[1], out[1]))
                 if not equal:
@@ -394,12 +394,17 @@ def judge_explanation(a, b, res, consts, combs):
     return None
 
 
-def explanation_shape(a, b, res):
-    """What the current code additionally guarantees about the *shape* of the dictionary (not required
-    by the property, so a departure is a correspondence matter, never a violation): the queried pair
-    is a key, and the labels of every entry chain from the first to the second constant of its key."""
-    if a != b and not any(k == (a, b) for k, _ in res):
-        return "no entry for the queried pair %s" % ((a, b),)
+def explanation_closed(a, b, res):
+    """The raw dictionary is an interface: `CongClosureHOL.explain.get_proofterm(u, v)` reads
+    `explain[(u, v)]`, walks that path starting at `u` (every label must have the current constant as
+    one of its two ends, in either direction) and, for a label (EQ_COMB, ((a1,a2),a), ((b1,b2),b)),
+    calls itself on (a1, b1) if a1 != b1 and on (a2, b2) if a2 != b2 -- in exactly this orientation.
+    A dictionary that is not closed in this sense makes the wrapper fail on an equality that holds
+    ("every explanation ... yields a checker-accepted theorem"), so a departure is a violation; the
+    Lean theorem `explain_closed` proves the same three clauses for the model.  Independent of the model."""
+    keys = {k for k, _ in res}
+    if a != b and (a, b) not in keys:
+        return ("not-closed", "no entry for the queried pair %s" % ((a, b),))
     for (x, y), labs in res:
         cur = x
         for l in labs:
@@ -409,9 +414,14 @@ def explanation_shape(a, b, res):
             elif q == cur:
                 cur = p
             else:
-                return "labels of entry %s do not chain" % ((x, y),)
+                return ("broken-chain", "the labels of entry %s do not chain from %s (at %s)" % ((x, y), x, l))
+            if l[0] == "f":
+                for u, v in ((l[1], l[4]), (l[2], l[5])):
+                    if u != v and (u, v) not in keys:
+                        return ("not-closed", "label %s on the path of %s needs an entry for %s (the consumer looks it up in this "
+                                              "orientation)%s" % (l, (x, y), (u, v), "; only %s is there" % ((v, u),) if (v, u) in keys else ""))
         if cur != y:
-            return "labels of entry %s end at %s" % ((x, y), cur)
+            return ("broken-chain", "the labels of entry %s lead from %s to %s" % ((x, y), x, cur))
     return None
 
 
@@ -491,7 +501,7 @@ def core_failure(congc):
     return fails
 
 
-def check_core_batch(ctx, congc, seqs, stream, meta=None):
+def check_core_batch(ctx, congc, seqs, stream, env=None):
     """seqs: list of core op lists.  Runs impl + oracle + model on all of them."""
     lines, impl = [], []
     for ops in seqs:
@@ -520,13 +530,6 @@ def check_core_batch(ctx, congc, seqs, stream, meta=None):
                 ctx.count("explanations-with-congruence-steps")
             if o[0] == "res" and len(o[1]) >= 3:
                 ctx.count("explanations-with-nested-entries")
-        for op, o in zip(ops, outs):
-            if op[0] == "explain" and o[0] == "res":
-                sh = explanation_shape(op[1], op[2], o[1])
-                if sh:
-                    ctx.count("explanation-shape-differs")
-                    if not any(n == "correspondence:c17:explain-shape" for n, _ in ctx.brokens):
-                        ctx.broken("correspondence:c17:explain-shape", "ops=%s %s: %s (result %s)" % (ops, op, sh, o[1]))
         j = judge_core(ops, outs)
         if j and len(ctx.violations) >= MAX_REPORTED:
             ctx.count("violations-beyond-the-first-%d" % MAX_REPORTED)
@@ -546,12 +549,49 @@ def check_core_batch(ctx, congc, seqs, stream, meta=None):
                 mouts = [("unparsable", model[idx][:80])]
             if mouts != outs:
                 ndis += 1
+                if ndis <= 12 and env is not None:
+                    lift_search(ctx, env, congc, ops, stream)
                 if ndis <= 3:
                     k = next((i for i in range(min(len(outs), len(mouts))) if outs[i] != mouts[i]), min(len(outs), len(mouts)))
                     ctx.broken("correspondence:c17:" + stream,
                                "ops=%s first difference at op %d: impl=%s model=%s" % (ops, k, outs[k:k + 1], mouts[k:k + 1]))
                     ctx.coverage["disagreements_checked"] += 1
     return model is not None
+
+
+# ------------------------------------------------------------------ lifting raw sequences into the HOL wrapper
+LIFT = 10        # atom ids >= LIFT are the raw constants k0, k1, ... (base type)
+
+
+def lift_ops(ops):
+    """A raw operation sequence as a history of the HOL wrapper: constant c -> variable k<c> of the base
+    type, `f(a1, a2) = a` -> merge(R k<a1> k<a2>, k<a>) with the binary variable R (curried), everything
+    well typed.  The congruence closure on the k's is the same; used when the raw correspondence breaks,
+    to look for a failing input of the wrapper (explain through the checker)."""
+    k = lambda c: atom(LIFT + c)  # noqa
+    out = []
+    for op in ops:
+        if op[0] == "add":
+            out.append(("addterm", k(op[1])))
+        elif op[0] == "mc":
+            out.append(("merge", k(op[1]), k(op[2]), True))
+        elif op[0] == "mf":
+            out.append(("merge", app(app(atom(6), k(op[1])), k(op[2])), k(op[3]), True))
+        else:
+            out.append((op[0], k(op[1]), k(op[2])))
+    return out
+
+
+def lift_search(ctx, env, congc, ops, stream):
+    """Failing-input search for one disagreeing raw sequence: run its lifting on the real wrapper."""
+    hops = lift_ops(ops)
+    ctx.count("lifted-into-hol")
+    try:
+        v, _ = run_hol(ctx, env, congc, hops)
+    except Timeout:
+        return
+    if v and len(ctx.violations) < MAX_REPORTED:
+        report_hol(ctx, env, congc, hops, v, "lifted from a disagreeing %s sequence" % stream)
 
 
 # ------------------------------------------------------------------ order independence
@@ -641,6 +681,9 @@ class HolEnv:
 
     def to_hol(self, t):
         if t[0] == "a":
+            if t[1] >= LIFT:
+                from kernel.term import Var
+                return Var("k%d" % (t[1] - LIFT), self.types[0])
             return self.vars[t[1]]
         from kernel.term import Comb
         return Comb(self.to_hol(t[1]), self.to_hol(t[2]))
@@ -760,6 +803,79 @@ class HolEnv:
             out.append(("explain", t2, t1))
         return out
 
+    # -- directed: the subterms of the goal enter the structure in arbitrary orders, through any call
+    def gen_order_family(self, rng, all_orders):
+        """One goal `l = r` (two variants of a nested term under merged atoms) and several histories that
+        enter the application subterms of l and r in different orders -- through add_term, test, explain
+        or merge calls on them, interleaved with the merges -- before asking for the explanation.
+        all_orders: every permutation when there are at most 4 application subterms (thorough tier)."""
+        base = [atom(i) for i in range(4)]
+        rng.shuffle(base)
+        k = rng.choice([2, 2, 3])
+        cls = base[:k]
+        classes = [cls]
+        eqs = [(cls[i], cls[i + 1]) if rng.random() < 0.5 else (cls[i + 1], cls[i]) for i in range(k - 1)]
+        shape = rng.random()
+        x, y = cls[0], cls[1]
+        if shape < 0.45:        # R (f x) (g x) = R (f y) (g y): two unary congruences over the same pair
+            h1, h2 = rng.choice([(atom(4), atom(5)), (atom(4), atom(4)), (atom(5), atom(4))])
+            top = rng.choice([atom(6), atom(7)])
+            l = app(app(top, app(h1, x)), app(h2, x))
+            r = app(app(top, app(h1, y)), app(h2, y))
+            if rng.random() < 0.3:
+                extra = rng.choice(base)
+                l, r = app(app(top, l), extra), app(app(top, r), extra)
+        elif shape < 0.75:      # R (S x c) (S d x) = R (S y c) (S d y)
+            top, h = rng.choice([(atom(6), atom(7)), (atom(6), atom(6))])
+            c, d = rng.choice(base), rng.choice(base)
+            l = app(app(top, app(app(h, x), c)), app(app(h, d), x))
+            r = app(app(top, app(app(h, y), c)), app(app(h, d), y))
+        else:
+            tmpl = self.gen_nested(rng, 2, [atom(4), atom(5)], [atom(6)], cls + base[k:k + 1])
+            l, r = self.variant(rng, tmpl, classes), self.variant(rng, tmpl, classes)
+        subs = [t for t in list(subterms(l, {})) + list(subterms(r, {})) if t[0] == "app" and self.order_of(t) == 0 and t not in (l, r)]
+        subs = list(dict.fromkeys(subs))
+        mode = rng.choice(["pt", "pt", "none", "mixed"])
+        with_pt = lambda: mode == "pt" or (mode == "mixed" and rng.random() < 0.5)  # noqa
+        if all_orders and len(subs) <= 4:
+            perms = [list(p) for p in itertools.permutations(subs)]
+        else:
+            perms = []
+            for _ in range(4 if not all_orders else 8):
+                p = list(subs)
+                rng.shuffle(p)
+                perms.append(p)
+        fam = []
+        for perm in perms:
+            entered = []
+            ops = []
+            for t in perm:
+                r_ = rng.random()
+                if r_ < 0.4 or not entered:
+                    ops.append(("addterm", t))
+                elif r_ < 0.7:
+                    ops.append(("test", t, rng.choice(entered)))
+                elif r_ < 0.85:
+                    ops.append(("explain", t, t))
+                else:
+                    ops.append(("test", rng.choice(entered), t))
+                entered.append(t)
+            merges = [("merge", s, t, with_pt()) for s, t in eqs]
+            where = rng.random()
+            if where < 0.4:
+                ops = merges + ops
+            elif where < 0.7:
+                ops = ops + merges
+            else:
+                for m in merges:
+                    ops.insert(rng.randint(0, len(ops)), m)
+            ops.append(("test", l, r))
+            ops.append(("explain", l, r))
+            if rng.random() < 0.5:
+                ops.append(("explain", r, l))
+            fam.append(ops)
+        return fam
+
     def order_of(self, t):
         n = 0
         while t[0] == "app":
@@ -872,6 +988,19 @@ def hops_json(hops):
     return [[op[0]] + [term_str(x) if isinstance(x, tuple) else x for x in op[1:]] for op in hops]
 
 
+def report_hol(ctx, env, congc, hops, v, origin=None):
+    small = shrink(hops, hol_failure(ctx, env, congc))
+    small = shrink(shrink_terms(small, hol_failure(ctx, env, congc)), hol_failure(ctx, env, congc))
+    try:
+        vs = run_hol(ctx, env, congc, small)[0] or v
+    except Timeout:
+        vs = v
+    # crashes are keyed by exception and operation (one replay per class), the rest by input
+    key = "%s:%s" % (v[0], small[vs[1]][0]) if v[0].startswith("hol-raise:") else "%s:%s" % (v[0], json.dumps(hops_json(small)))
+    ctx.violation(key, "CongClosureHOL on %s: %s%s" % (hops_json(small), vs[2], " (%s)" % origin if origin else ""),
+                  {"stream": "hol", "hops": small, "readable": hops_json(small), "kind": v[0]})
+
+
 def check_hol_batch(ctx, env, congc, seqs):
     lines, parts_all = [], []
     for hops in seqs:
@@ -889,16 +1018,7 @@ def check_hol_batch(ctx, env, congc, seqs):
             lines.append(ops_line([]))
             continue
         if v:
-            small = shrink(hops, hol_failure(ctx, env, congc))
-            small = shrink(shrink_terms(small, hol_failure(ctx, env, congc)), hol_failure(ctx, env, congc))
-            try:
-                vs = run_hol(ctx, env, congc, small)[0] or v
-            except Timeout:
-                vs = v
-            # crashes are keyed by exception and operation (one replay per class), the rest by input
-            key = "%s:%s" % (v[0], small[vs[1]][0]) if v[0].startswith("hol-raise:") else "%s:%s" % (v[0], json.dumps(hops_json(small)))
-            ctx.violation(key, "CongClosureHOL on %s: %s" % (hops_json(small), vs[2]),
-                          {"stream": "hol", "hops": small, "readable": hops_json(small), "kind": v[0]})
+            report_hol(ctx, env, congc, hops, v)
             parts_all.append(None)
             lines.append(ops_line([]))
             continue
@@ -957,7 +1077,10 @@ def run(ctx):
         "(thorough) or sampled orders, with flipped orientations and pre-added terms; hol: typed curried terms over a,b,c,d,f,g,R,S on the "
         "real CongClosureHOL, random plus directed sequences (hol-swap: two variants of one nested term of depth 2-3 over few atoms, so that "
         "one explanation needs the same classes in both orientations; terms pre-added in varied orders; merges with and without proof "
-        "terms and in both orientations). Non-trivial = at least two merges; distinct by the operation list.")
+        "terms and in both orientations; hol-order: one goal, the application subterms of both sides entered beforehand in sampled orders "
+        "(thorough: all orders when there are <=4) through add_term/test/explain calls interleaved with the merges). Every raw explanation "
+        "is also checked for closedness (what CongClosureHOL.explain looks up); a raw sequence on which model and code disagree is lifted "
+        "into the wrapper and replayed there. Non-trivial = at least two merges; distinct by the operation list.")
     proofs_ok = ctx.lean_props(["Holpy.C17.Props"], exes=[EXE])
     if ctx.tier == "thorough" and proofs_ok:
         ctx.lean_check_modules(["Holpy.C17.Props"])
@@ -976,22 +1099,22 @@ def run(ctx):
     have_model = True
     # corpus first
     if corpus.get("core"):
-        have_model &= check_core_batch(ctx, congc, [[tuple(o) for o in ops] for ops in corpus["core"]], "corpus")
+        have_model &= check_core_batch(ctx, congc, [[tuple(o) for o in ops] for ops in corpus["core"]], "corpus", env)
     if corpus.get("hol"):
         check_hol_batch(ctx, env, congc, [[tup(o) for o in hops] for hops in corpus["hol"]])
     # raw stream
     rng = ctx.rng("raw")
-    seqs = [gen_raw_seq(rng) for _ in range(ctx.scale(5000, 40000))]
+    seqs = [gen_raw_seq(rng) for _ in range(ctx.scale(4000, 40000))]
     for s in seqs[:2]:
         ctx.sample({"raw": s})
-    have_model &= check_core_batch(ctx, congc, seqs, "raw")
+    have_model &= check_core_batch(ctx, congc, seqs, "raw", env)
     ctx.log("raw stream done")
     # term stream
     rng = ctx.rng("term")
-    hseqs = [gen_term_seq(rng) for _ in range(ctx.scale(4000, 30000))]
+    hseqs = [gen_term_seq(rng) for _ in range(ctx.scale(3000, 30000))]
     for h in hseqs[:2]:
         ctx.sample({"term": hops_json(h)})
-    have_model &= check_core_batch(ctx, congc, [flatten_all(h)[0].ops for h in hseqs], "term")
+    have_model &= check_core_batch(ctx, congc, [flatten_all(h)[0].ops for h in hseqs], "term", env)
     ctx.log("term stream done")
     # permutations
     rng = ctx.rng("perm")
@@ -1007,10 +1130,10 @@ def run(ctx):
             perms = allp
         pseqs += check_order_independence(ctx, congc, eqs, perms, rng, "perm")
         if len(pseqs) >= 5000:
-            have_model &= check_core_batch(ctx, congc, pseqs, "perm")
+            have_model &= check_core_batch(ctx, congc, pseqs, "perm", env)
             pseqs = []
     if pseqs:
-        have_model &= check_core_batch(ctx, congc, pseqs, "perm")
+        have_model &= check_core_batch(ctx, congc, pseqs, "perm", env)
     if ctx.tier == "thorough":
         ctx.coverage["exhaustive"] = False
         ctx.coverage["exhaustive_subspace"] = "all orders of each of the %d sampled equation sets of <=5 equations" % nsets
@@ -1022,6 +1145,15 @@ def run(ctx):
     swap = [env.gen_swap_seq(rng) for _ in range(ctx.scale(500, 5000))]
     ctx.sample({"hol-swap": hops_json(swap[0])})
     hol += swap
+    rng = ctx.rng("hol-order")
+    nfam = 0
+    while nfam < ctx.scale(120, 400):
+        fam = env.gen_order_family(rng, ctx.tier == "thorough")
+        if nfam == 0:
+            ctx.sample({"hol-order": hops_json(fam[0])})
+        hol += fam
+        ctx.count("hol-order:histories", len(fam))
+        nfam += 1
     for h in hol[:2]:
         ctx.sample({"hol": hops_json(h)})
     have_model &= check_hol_batch(ctx, env, congc, hol)
